@@ -29,11 +29,12 @@ void vp_c10_tagged(char *out, uint32_t tag) { *(QAD**)out = c10_blk(tag); }
 
 /* ---- socket: XmppSocket::sendData / connectToHost / disconnectFromHost / isConnected --------------------------------------------- */
 #define SENT_CAP 4
+static uint8_t c10_sock_connected;
 static uint32_t sent_n, sent_tag[SENT_CAP];
 uint8_t vp_c10_send(char *ba) { QAD *d = *(QAD**)ba; ASSERT(d != SHARED_NULL, "C10 model: empty QByteArray handed to the socket"); ASSUME(d != SHARED_NULL);
   struct c10blk *b = (struct c10blk*)d; ASSERT(b->magic == C10_MAGIC, "C10 model: bytes handed to the socket were not produced by a classified serialiser"); ASSUME(b->magic == C10_MAGIC);
   ASSERT(sent_n < SENT_CAP, "C10 model: socket log capacity"); ASSUME(sent_n < SENT_CAP);
-  sent_tag[sent_n] = b->tag; sent_n++; return vp_bool(); }
+  sent_tag[sent_n] = b->tag; sent_n++; return c10_sock_connected ? vp_bool() : 0; }   /* real: false unless the socket is in ConnectedState, else whether everything was written */
 uint32_t vp_c10_sent_n(void) { return sent_n; }
 uint32_t vp_c10_sent_tag(uint32_t i) { return i < SENT_CAP ? sent_tag[i] : 0; }
 /* calls on the member object d->socket are bound statically to XmppSocket::sendData: same ghost log */
@@ -53,7 +54,7 @@ uint32_t vp_c10_conn_port(uint32_t i) { return i < CONN_CAP ? conn_port[i] : 0xf
 void vp_c10_conn_host(char *out, uint32_t i) { ASSUME(i < CONN_CAP && i < conn_n); *(QAD**)out = qad_ref(conn_host[i]); }
 /* XmppSocket::disconnectFromHost: closes the stream and the connection (real: "</stream:stream>" + QSslSocket::disconnectFromHost;
    the socket's disconnected() signal follows through the event loop) */
-static uint32_t c10_disconnects; static uint8_t c10_sock_connected;
+static uint32_t c10_disconnects;
 void _ZN5QXmpp7Private10XmppSocket18disconnectFromHostEv(char *self) { c10_disconnects++; }
 uint32_t vp_c10_disconnects(void) { return c10_disconnects; }
 uint8_t _ZNK5QXmpp7Private10XmppSocket11isConnectedEv(char *self) { return c10_sock_connected; }
@@ -132,16 +133,6 @@ void _ZN9QtPrivate12argToQStringE11QStringViewmPPKNS_7ArgBaseE(char *ret, uint64
 void _ZNK7QString3argERKS_i5QChar(char *ret, char *self, char *a, uint32_t w, uint16_t fill) { *(QAD**)ret = qad_ref(*(QAD**)self); }
 /* QXmppUtils::generateStanzaUuid (real: QUuid::createUuid, random): an arbitrary non-empty id */
 void _ZN10QXmppUtils18generateStanzaUuidEv(char *ret) { QAD *d = qs_new(2, 2); SD(d)[0] = vp_u16(); SD(d)[1] = vp_u16(); qs_seal(d, 0); *(QAD**)ret = d; }   /* 2 arbitrary units (length known to symex) */
-/* QMap<unsigned, QXmppPacket> (store of unacknowledged stanzas in StreamAckManager): class-level model "always empty" - the accounting of
-   unacknowledged stanzas is C09's subject; any operation that would fill or walk a non-empty store is left to the real inline code on a
-   null representation and is flagged (pointer check) if reached */
-void _ZN4QMapIj11QXmppPacketEC2Ev(char *self) { *(char**)self = 0; }
-void _ZN4QMapIj11QXmppPacketED2Ev(char *self) { }
-uint8_t _ZNK4QMapIj11QXmppPacketE7isEmptyEv(char *self) { return 1; }
-char* _ZN4QMapIj11QXmppPacketE5beginEv(char *self) { return 0; }
-char* _ZN4QMapIj11QXmppPacketE3endEv(char *self) { return 0; }
-uint8_t _ZNK4QMapIj11QXmppPacketE8iteratorneERKS2_(char *a, char *b) { return *(char**)a != *(char**)b; }
-uint8_t _ZNK4QMapIj11QXmppPacketE8iteratoreqERKS2_(char *a, char *b) { return *(char**)a == *(char**)b; }
 /* QRegularExpression (the JID pattern of BindManager::handleElement): over-approximation - whether the text matches is arbitrary (fixed per instance),
    the three captures of a match are arbitrary non-empty strings (C10 does not depend on the bound address) */
 struct c10_match { uint8_t has; };
@@ -170,4 +161,77 @@ uint64_t _ZN5QXmpp7Private14enumFromStringIN7QXmppIq4TypeELm4EEESt8optionalIT_ER
 /* index -> one of four concrete addresses (request-table model, see vp_iqmap_impl.h) */
 char* vp_pick4(uint32_t i, char *a, char *b, char *c, char *d) { return i == 0 ? a : i == 1 ? b : i == 2 ? c : d; }
 void vp_model_assert_cap(uint8_t ok) { ASSERT(ok, "C10 request-table model: capacity (3 entries) exceeded"); ASSUME(ok); }
+#endif
+
+/* ---- (copy of harness/C09/models.c) class-level model of QMap<unsigned, QXmppPacket>: ordered array with value semantics (what implicit sharing implements).
+   Elements are copied / destroyed with the REAL QXmppPacket copy constructor / destructor. ------------------------------------- */
+#ifdef HAVE_T_class_QXmppPacket
+typedef struct T_class_QXmppPacket PKT;
+#ifndef MCAP
+#define MCAP 4
+#endif
+struct ent { uint32_t key; PKT val; };
+struct amap { uint32_t n; struct ent e[MCAP + 1]; };
+#define AMP(self) (*(struct amap**)(self))
+static struct amap AM_ZERO;
+static struct amap *am_new(void) { struct amap *m = malloc(sizeof(struct amap)); ASSUME(m != 0); *m = AM_ZERO; return m; }
+static struct amap *AM(char *self) { return AMP(self); }
+static void pk_copy(PKT *d, PKT *s) { F_vp_c10_pkt_copy((char*)d, (char*)s); }
+static void pk_kill(PKT *p) { F_vp_c10_pkt_destroy((char*)p); }
+uint32_t vp_c10_map_n(char *self) { return AM(self)->n; }
+uint32_t vp_c10_map_key(char *self, uint32_t i) { ASSERT(i < MCAP, "C10 model: map index"); return AM(self)->e[i].key; }
+char* vp_c10_map_val(char *self, uint32_t i) { ASSERT(i < MCAP, "C10 model: map index"); return (char*)&AM(self)->e[i].val; }
+void vp_c10_map_set(char *self, uint32_t i, uint32_t key, char *pkt) { ASSERT(i < MCAP, "C10 model: map index"); struct amap *m = AM(self); m->e[i].key = key; pk_copy(&m->e[i].val, (PKT*)pkt); }
+void vp_c10_map_setn(char *self, uint32_t n) { ASSERT(n <= MCAP, "C10 model: map size"); AM(self)->n = n; }
+void _ZN4QMapIj11QXmppPacketEC2Ev(char *self) { AMP(self) = am_new(); }
+void _ZN4QMapIj11QXmppPacketE5clearEv(char *self) { struct amap *m = AM(self); for (uint32_t i = 0; i < MCAP; i++) { if (i >= m->n) break; pk_kill(&m->e[i].val); } m->n = 0; }
+void _ZN4QMapIj11QXmppPacketED2Ev(char *self) { if (AMP(self)) { _ZN4QMapIj11QXmppPacketE5clearEv(self); AMP(self) = 0; } }
+void _ZN4QMapIj11QXmppPacketEC2ERKS1_(char *self, char *o) { struct amap *m = am_new(), *s = AM(o); AMP(self) = m;
+  for (uint32_t i = 0; i < MCAP; i++) { if (i >= s->n) break; m->e[i].key = s->e[i].key; pk_copy(&m->e[i].val, &s->e[i].val); } m->n = s->n; }
+void _ZN4QMapIj11QXmppPacketEC2EOS1_(char *self, char *o) { AMP(self) = AMP(o); AMP(o) = am_new(); }
+void _ZN4QMapIj11QXmppPacketE4swapERS1_(char *self, char *o) { struct amap *t = AMP(self); AMP(self) = AMP(o); AMP(o) = t; }
+char* _ZN4QMapIj11QXmppPacketEaSEOS1_(char *self, char *o) { struct amap *t = AMP(self); AMP(self) = AMP(o); AMP(o) = t; return self; }
+char* _ZN4QMapIj11QXmppPacketEaSERKS1_(char *self, char *o) { if (AMP(self) != AMP(o)) { _ZN4QMapIj11QXmppPacketE5clearEv(self); struct amap *m = AM(self), *s = AM(o);
+  for (uint32_t i = 0; i < MCAP; i++) { if (i >= s->n) break; m->e[i].key = s->e[i].key; pk_copy(&m->e[i].val, &s->e[i].val); } m->n = s->n; } return self; }
+void _ZN4QMapIj11QXmppPacketE6detachEv(char *self) { }
+void _ZN4QMapIj11QXmppPacketE13detach_helperEv(char *self) { }
+uint8_t _ZNK4QMapIj11QXmppPacketE7isEmptyEv(char *self) { return AM(self)->n == 0; }
+uint32_t _ZNK4QMapIj11QXmppPacketE4sizeEv(char *self) { return AM(self)->n; }
+char* _ZN4QMapIj11QXmppPacketE5beginEv(char *self) { return (char*)&AM(self)->e[0]; }
+char* _ZNK4QMapIj11QXmppPacketE5beginEv(char *self) { return (char*)&AM(self)->e[0]; }
+char* _ZNK4QMapIj11QXmppPacketE10constBeginEv(char *self) { return (char*)&AM(self)->e[0]; }
+char* _ZN4QMapIj11QXmppPacketE3endEv(char *self) { struct amap *m = AM(self); return (char*)&m->e[m->n]; }
+char* _ZNK4QMapIj11QXmppPacketE3endEv(char *self) { struct amap *m = AM(self); return (char*)&m->e[m->n]; }
+char* _ZNK4QMapIj11QXmppPacketE8constEndEv(char *self) { struct amap *m = AM(self); return (char*)&m->e[m->n]; }
+char* _ZN4QMapIj11QXmppPacketE6insertERKjRKS0_(char *self, char *k, char *v) { struct amap *m = AM(self); uint32_t key = *(uint32_t*)k, pos = 0;
+  for (uint32_t i = 0; i < MCAP; i++) { if (i >= m->n) break; if (m->e[i].key < key) pos = i + 1; }
+  if (pos < m->n && m->e[pos].key == key) { pk_kill(&m->e[pos].val); pk_copy(&m->e[pos].val, (PKT*)v); return (char*)&m->e[pos]; }
+  ASSERT(m->n < MCAP, "C10 model: QMap capacity exceeded");
+  for (uint32_t i = MCAP; i > 0; i--) { if (i <= m->n && i > pos) m->e[i] = m->e[i - 1]; }
+  m->e[pos].key = key; pk_copy(&m->e[pos].val, (PKT*)v); m->n++; return (char*)&m->e[pos]; }
+char* _ZN4QMapIj11QXmppPacketE5eraseENS1_8iteratorE(char *self, char *it) { struct amap *m = AM(self); uint32_t pos = (uint32_t)((struct ent*)it - m->e);
+  ASSERT(pos < m->n, "C10 model: QMap::erase(end())"); pk_kill(&m->e[pos].val);
+  for (uint32_t i = 0; i < MCAP; i++) { if (i >= pos && i + 1 < m->n) m->e[i] = m->e[i + 1]; } m->n--; return (char*)&m->e[pos]; }
+void _ZN4QMapIj11QXmppPacketE8iteratorC2EP8QMapNodeIjS0_E(char *it, char *n) { *(char**)it = n; }
+void _ZN4QMapIj11QXmppPacketE14const_iteratorC2EPK8QMapNodeIjS0_E(char *it, char *n) { *(char**)it = n; }
+void _ZN4QMapIj11QXmppPacketE14const_iteratorC2ERKNS1_8iteratorE(char *it, char *o) { *(char**)it = *(char**)o; }
+char* _ZN4QMapIj11QXmppPacketE8iteratorppEv(char *it) { *(struct ent**)it += 1; return it; }
+char* _ZN4QMapIj11QXmppPacketE14const_iteratorppEv(char *it) { *(struct ent**)it += 1; return it; }
+char* _ZN4QMapIj11QXmppPacketE8iteratormmEv(char *it) { *(struct ent**)it -= 1; return it; }
+char* _ZN4QMapIj11QXmppPacketE14const_iteratormmEv(char *it) { *(struct ent**)it -= 1; return it; }
+static struct ent *am_find(struct amap *m, uint32_t key) { for (uint32_t i = 0; i < MCAP; i++) { if (i >= m->n) break; if (m->e[i].key == key) return &m->e[i]; } return &m->e[m->n]; }
+char* _ZN4QMapIj11QXmppPacketE4findERKj(char *self, char *k) { return (char*)am_find(AM(self), *(uint32_t*)k); }
+char* _ZNK4QMapIj11QXmppPacketE4findERKj(char *self, char *k) { return (char*)am_find(AM(self), *(uint32_t*)k); }
+char* _ZNK4QMapIj11QXmppPacketE9constFindERKj(char *self, char *k) { return (char*)am_find(AM(self), *(uint32_t*)k); }
+uint8_t _ZNK4QMapIj11QXmppPacketE8containsERKj(char *self, char *k) { struct amap *m = AM(self); return am_find(m, *(uint32_t*)k) != &m->e[m->n]; }
+char* _ZNK4QMapIj11QXmppPacketE8iterator3keyEv(char *it) { return (char*)&(*(struct ent**)it)->key; }
+char* _ZNK4QMapIj11QXmppPacketE14const_iterator3keyEv(char *it) { return (char*)&(*(struct ent**)it)->key; }
+char* _ZNK4QMapIj11QXmppPacketE8iterator5valueEv(char *it) { return (char*)&(*(struct ent**)it)->val; }
+char* _ZNK4QMapIj11QXmppPacketE8iteratordeEv(char *it) { return (char*)&(*(struct ent**)it)->val; }
+char* _ZNK4QMapIj11QXmppPacketE8iteratorptEv(char *it) { return (char*)&(*(struct ent**)it)->val; }
+char* _ZNK4QMapIj11QXmppPacketE14const_iteratordeEv(char *it) { return (char*)&(*(struct ent**)it)->val; }
+uint8_t _ZNK4QMapIj11QXmppPacketE8iteratoreqERKS2_(char *a, char *b) { return *(char**)a == *(char**)b; }
+uint8_t _ZNK4QMapIj11QXmppPacketE8iteratorneERKS2_(char *a, char *b) { return *(char**)a != *(char**)b; }
+uint8_t _ZNK4QMapIj11QXmppPacketE14const_iteratoreqERKS2_(char *a, char *b) { return *(char**)a == *(char**)b; }
+uint8_t _ZNK4QMapIj11QXmppPacketE14const_iteratorneERKS2_(char *a, char *b) { return *(char**)a != *(char**)b; }
 #endif
